@@ -609,6 +609,12 @@ class StateEngine(object):
 
         state_machine_type = state_machine.get("type")
         if state_machine_type == "STANDARD":
+            """
+            If the execution fails no history update is made before this
+            point, so after a StateEngine restart the metadata of a
+            redelivered execution may not have been re-created yet.
+            """
+            self.restore_execution_metadata(execution_arn)
             execution_detail = self.executions[execution_arn]
             state_machine_arn = execution_detail["stateMachineArn"]
         else:
@@ -847,30 +853,7 @@ class StateEngine(object):
         state we should hopefully be able to avoid the following condition upon
         StateEngine restart.
         """
-        if self.executions.get(execution_arn) == None:
-            self.logger.warning(
-                "StateEngine: update_execution_history: Execution {} does not "
-                "exist, probably due to StateEngine restart. Some history "
-                "metadata has been lost!".format(execution_arn))
-
-            # Derive missing fields from execution_arn
-            split = execution_arn.rpartition(':')
-            arn = parse_arn(split[0])
-            arn["resource_type"] = "stateMachine"
-            state_machine_arn = create_arn(arn)
-            name = split[2]
-
-            self.executions[execution_arn] = {
-                "executionArn": execution_arn,
-                "input": None,
-                "name": name,
-                "output": None,
-                "startDate": time.time(),
-                "stateMachineArn": state_machine_arn,
-                "status": "RUNNING",
-                "stopDate": None,
-            }
-            self.execution_history[execution_arn] = []
+        self.restore_execution_metadata(execution_arn)
 
         history = self.execution_history[execution_arn]
         """
@@ -901,6 +884,38 @@ class StateEngine(object):
             in the execution_history store to associate the ttl with.
             """
             self.execution_history.set_ttl(execution_arn, self.execution_ttl)
+
+    def restore_execution_metadata(self, execution_arn):
+        """
+        Re-create the execution metadata and history of a "STANDARD" execution
+        if they do not exist, which should only really happen if the
+        StateEngine has failed and been restarted and we are handling a
+        redelivered message.
+        """
+        if self.executions.get(execution_arn) == None:
+            self.logger.warning(
+                "StateEngine: update_execution_history: Execution {} does not "
+                "exist, probably due to StateEngine restart. Some history "
+                "metadata has been lost!".format(execution_arn))
+
+            # Derive missing fields from execution_arn
+            split = execution_arn.rpartition(':')
+            arn = parse_arn(split[0])
+            arn["resource_type"] = "stateMachine"
+            state_machine_arn = create_arn(arn)
+            name = split[2]
+
+            self.executions[execution_arn] = {
+                "executionArn": execution_arn,
+                "input": None,
+                "name": name,
+                "output": None,
+                "startDate": time.time(),
+                "stateMachineArn": state_machine_arn,
+                "status": "RUNNING",
+                "stopDate": None,
+            }
+            self.execution_history[execution_arn] = []
 
     def acknowledge_event_list(self, event_ids):
         """
